@@ -91,6 +91,31 @@ number; its `u32` form (`From<ChildNumber> for u32`) sets bit 31 for the hardene
 def childFromIdx (hardened : Bool) (i : Nat) : Option ChildNumber :=
   if i / 2^31 % 2 = 1 then none else some (if hardened then .hardened i else .normal i)
 
+/-! ### what `ckd_priv` / `ckd_pub` feed the HMAC (`keychain/src/extkey_bip32.rs`)
+
+```text
+hasher.init_sha512(&self.chain_code[..]);                       // HMAC key = the parent's chain code
+Normal   => hasher.append_sha512(pubkey(self.secret_key).serialize_vec(compressed))   // 33 bytes
+Hardened => hasher.append_sha512(&[0u8]); hasher.append_sha512(&self.secret_key[..])  // 1 + 32 bytes
+hasher.append_sha512(be32(u32::from(i)));                        // bit 31 set for a hardened child
+```
+
+`ExtendedPubKey::ckd_pub_tweak`: `Hardened => Err(CannotDeriveFromHardenedKey)`, `Normal` the same
+key and message as above from the PUBLIC key alone.  The harness observes key and message with a
+recording `BIP32Hasher`. -/
+
+/-- the HMAC message of `ckd_priv(parent, child)`: parent secret (32 bytes), its compressed public key (33) -/
+def ckdPrivMessage (secret pub : Bytes) (c : ChildNumber) : Bytes :=
+  match c with
+  | .normal _ => pub ++ u32be c.toU32
+  | .hardened _ => [0] ++ secret ++ u32be c.toU32
+
+/-- the HMAC message of `ckd_pub(parent public key, child)`; `none` = `CannotDeriveFromHardenedKey` -/
+def ckdPubMessage (pub : Bytes) (c : ChildNumber) : Option Bytes :=
+  match c with
+  | .normal _ => some (pub ++ u32be c.toU32)
+  | .hardened _ => none
+
 def showNonce : Option Bytes → String
   | some b => toHex b
   | none => "err"
